@@ -253,10 +253,13 @@ def call(fn, exc_mod):
 # message menu for histories
 # ---------------------------------------------------------------------------------------
 
-def ro_builder(ids, mid, ro_id='RO', lead=2):
+def ro_builder(ids, mid, ro_id='RO', lead=2, completed=False):
     def build():
         stories = [B.story(s, slug='ss', timing=B.timing_block(dur='10'), body=[B.item('I0'), T('p', 'x')]) for s in ids]
-        return B.ro_tree(stories, lead=lead, msg_id=mid, ro_id=ro_id)
+        root = B.ro_tree(stories, lead=lead, msg_id=mid, ro_id=ro_id)
+        if completed:       # a merged, completed running order used again as the roCreate of a collection
+            root.append(E('mosromgrmeta', E('roDelete', T('roID', ro_id))))
+        return root
     return build
 
 
@@ -313,7 +316,7 @@ def collection_cell(P, A):
     sig = None
     with World(opt=P.get('opt', False)) as W:
         mt, mc_mod, exc = W.mt, W.mc, W.exc
-        handles = [W.doc(ro_builder(ids, rc_mid), kind=src)]
+        handles = [W.doc(ro_builder(ids, rc_mid, completed=bool(P.get('rc_completed'))), kind=src)]
         for j, kind in enumerate(kinds):
             fails = A.get('f%d' % j, False) if P.get('may_fail', True) else False
             ref = x if fails else ids[P.get('refs', [0, 1, 2, 0])[j] % N]
@@ -358,7 +361,7 @@ def collection_cell(P, A):
             B.hit()
             ns = [w for w in out.warns if w.category.__name__ == 'MosMergeNonStrictWarning']
             others = [w.category.__name__ for w in out.warns if w.category.__name__ != 'MosMergeNonStrictWarning']
-            if pre_completed.raised or pre_completed.result != (False, False):
+            if pre_completed.raised or pre_completed.result != (bool(P.get('rc_completed')),) * 2:
                 sig = 'completed-before-any-merge'
             elif got_ids != want_ids:
                 sig = 'readers-not-in-ascending-numeric-order'
@@ -381,6 +384,29 @@ def collection_cell(P, A):
                                  'stories': B.story_ids(mc.ro)},
                        expected={'reader_ids': want_ids, 'raised': B.conc(fold_exc), 'failures': n_fail,
                                  'stories': B.story_ids(ro_f)})
+        if sig is None and P.get('merge_twice') and not made.raised:
+            fold2_exc, n_fail2 = None, 0
+            with warnings.catch_warnings(record=True):
+                warnings.simplefilter('always')
+                for j in order:
+                    m = read(handles[1 + j])
+                    try:
+                        ro_f = ro_f + m
+                    except exc.MosMergeError as e:
+                        n_fail2 += 1
+                        if strict:
+                            fold2_exc = e
+                            break
+            out2 = call(lambda: mc.merge(strict=strict), exc)
+            ns2 = [w for w in out2.warns if w.category.__name__ == 'MosMergeNonStrictWarning']
+            if strict and fold_exc is None and fold2_exc is not None and not (out2.raised and type(out2.exc) is type(fold2_exc)):
+                sig = 'second-merge-strict-error-not-propagated'
+            elif (not strict or fold2_exc is None) and out2.raised and fold_exc is None:
+                sig = 'second-merge-raised-' + type(out2.exc).__name__
+            elif fold_exc is None and B.snap(mc.ro.xml) != B.snap(ro_f.xml):
+                sig = 'second-merge-result-differs'
+            elif not strict and len(ns2) != n_fail2:
+                sig = 'second-merge-nonstrict-warnings-%d-for-%d-failures' % (len(ns2), n_fail2)
         if sig is None and P.get('sort_objects'):
             objs = [read(h) for h in supplied]
             srt = sorted(objs)
@@ -605,6 +631,10 @@ SOURCE_DOCS = [
     ('utf8-bom', 'utf-8-sig', '<mos><messageID>6</messageID><roElementAction operation="SWAP"><roID>R</roID>'
                               '<element_source><storyID>é</storyID><storyID>b</storyID></element_source>'
                               '</roElementAction></mos>'),
+    ('doctype', 'utf-8', '<!DOCTYPE mos [<!ENTITY who "newsroom">]>\n<mos><messageID>8</messageID><roStoryDelete><roID>R</roID>'
+                         '<storyID>a</storyID></roStoryDelete></mos>'),
+    ('doctype-system', 'utf-8', '<?xml version="1.0"?>\n<!DOCTYPE mos SYSTEM "mos.dtd">\n<mos><messageID>9</messageID>'
+                                '<roDelete><roID>R</roID></roDelete></mos>'),
     ('ascii-pretty', 'ascii', '<mos>\n  <mosID>m</mosID>\n  <messageID>7</messageID>\n  <roStoryMove>\n    <roID>R</roID>\n'
                               '    <storyID>a</storyID>\n    <storyID/>\n  </roStoryMove>\n</mos>\n'),
 ]
